@@ -4,6 +4,22 @@ import json, os
 HERE = os.path.dirname(os.path.dirname(os.path.abspath(__file__)))
 BASE_OFF = "cd /repo && /venv/bin/python -m pytest -ra -q -p no:cacheprovider --timeout=900 --continue-on-collection-errors"
 CHECKS = {
+ 'C02': dict(cat='other', tech='bounded run-time contract on x86_mn.asm / asm_att ("every candidate decodes, with its full length, to exactly the requested instruction") over generated abstract instructions; reference = independent IA-32 spec decoder specs/x86dec.py; immediate and displacement boundary values',
+   text='Bounded, structurally complete over the operand-shape space: one abstract instruction per (mnemonic, operand kinds/sizes, register class, prefix set, addressing shape) from the spec decoding of the enumerated decoder trie (~3.5k quick / all register numbers and SIB bytes thorough), each rendered in Intel and AT&T syntax with the boundary immediates (-129..2^32-1) and displacements (-129..128); every returned candidate is decoded by the spec decoder and compared structurally (mnemonic class, operands modulo width, prefixes). Not a proof: the assembler search (asm_candidates, 400 lines of table matching) is outside the VC generator.',
+   note='Trusted: specs/x86dec.py, the printer bounded/asmgen.py (forms it cannot print unambiguously are skipped: 16-bit addressing, relative/far operands, x87 in AT&T, string ops in AT&T). MMX/SSE not generated.',
+   ref='5 C02'),
+ 'C03': dict(cat='other', tech='bounded run-time contract on the composition dis . asm and asm . str . dis over generated instructions; canonical byte strings supplied by the real GNU assembler (as --32, executed as an external function)',
+   text='Bounded: for every generated line and every candidate c: dis accepts c, consumes len(c), and asm(str(dis(c))) contains c. Converse: for every byte string of the corpus (and the boundary immediate/displacement variants assembled by GNU as) that GNU as reproduces from the reference rendering, asm(str(dis(b))) contains b. ~235k obligations quick.',
+   note='Trusted: GNU as 2.40 as the reference assembler; specs/x86dec.py + bounded/asmgen.py for the reference rendering. MMX/SSE not generated.',
+   ref='5 C03'),
+ 'C09': dict(cat='other', tech='bounded run-time contract on x86_mn.__str__ in both syntaxes: re-parse by the matching miasmX parser must contain the original bytes; for compiler-emittable instructions the real GNU assembler (both syntax modes, executed) must accept the text and produce an encoding of the same instruction (compared by the spec decoder)',
+   text='Bounded over the same corpus as C03 (canonical encodings incl. boundary variants): Intel and AT&T renderings fed back to asm / asm_att; renderings without relative/far/absolute operands are assembled by GNU as in the matching mode and the output decoded by specs/x86dec.py must denote the same instruction. ~230k obligations quick.',
+   note='Trusted: GNU as, specs/x86dec.py. The "objdump" immediate-format variants are not exercised. MMX/SSE not generated.',
+   ref='5 C09'),
+ 'C19': dict(cat='other', tech='bounded metamorphic run-time contract on asm / asm_att: set equality of candidates across generated presentation-only rewrites of each accepted line (no oracle beyond the rewrite rules)',
+   text='Bounded: for every generated accepted Intel line, 14 rewrites (upper-case registers incl. segment and ST(i), lower-case size keywords, spacing, tabs, hexadecimal 0x/0X immediates and displacements, signed/unsigned immediates at the operand width, index-first, displacement-first, displacement outside brackets, displacement split in two constants, scale-first, st vs st(0)) and the AT&T transliterations GNU as accepts (suffix written or implied, AT&T or Intel mnemonic) must give the same candidate set. 51k lines quick, 1.2M thorough.',
+   note='Trusted: the rewrite rules in checks/asmfam.py + bounded/asmgen.py. An AT&T line without suffix that miasmX rejects is not counted when the suffixed line is accepted.',
+   ref='5 C19'),
  'C14': dict(cat='proof', tech='contract-based deductive verification: VCs generated from the AST of every modint method (pyvc), discharged by z3; bounded native twins as cross-check',
    text='Every operator method of the 11 fixed-width classes is verified against the contract "exact result reduced mod 2^n into the wider operand type" for ALL operand values (one obligation per method x class pair x clause). Call sites use callee contracts (maxcast, constructors, __eq__/__lt__).',
    note='Trusted: z3 unsat answers; pyvc encoding of Python int semantics (floor div/mod, exact float constants); & | ^ << >> ** on unbounded ints as uninterpreted functions shared by code and spec; spec functions norm/wider. Shift counts/exponents >= 0, divisor != 0 are preconditions.',
